@@ -64,3 +64,23 @@ Proof. split; reflexivity. Qed.
 (* text-level tie: the functions this property's hand-written model and harness were written from are unchanged
    (digests regenerated from /repo on every run; Proofs/PinsC06.v) *)
 Definition C06_source_pins := pins_C06_ok.
+
+(* the translated source (gen/Src_psd.v): _check_n_components as it reads on this run, over the rationals (the option may hold
+   any real number): a value is returned iff the option is None (then n_features) or lies in [1, n_features]; 0.5 is rejected.
+   On naturals it is the model's check_n_components, the one C06_holds and C03_partial speak of. *)
+From Coq Require Import QArith.
+From ML Require Import C06Src.
+From MLgen Require Import Src_psd.
+Definition C06_source_stmt : Prop :=
+  (forall (n : Q) (nc : option Q) (k : Q),
+     src_check_n_components n nc = Some k <-> (nc = None /\ k = n) \/ (nc = Some k /\ (inject_Z 1 <= k)%Q /\ (k <= n)%Q)) /\
+  (forall (n : nat) (nc : option nat),
+     src_check_n_components (qnat n) (option_map qnat nc) =
+     match check_n_components n nc with Ok k => Some (qnat k) | Raise _ => None end).
+
+Theorem C06_source : C06_source_stmt.
+Proof. exact (conj src_check_n_components_spec src_check_n_components_model). Qed.
+Print Assumptions C06_source.
+
+Example C06_source_rejects_half : src_check_n_components (inject_Z 4) (Some (1 # 2)) = None.
+Proof. reflexivity. Qed.
